@@ -27,6 +27,8 @@ class FakeSock(object):
     self.dead = False
     self.closed = False
     self.calls = 0
+    self.quota = None
+    self.terminal = None
 
   def fileno(self):
     return -1 if self.closed else 100 + self.idx
@@ -35,6 +37,21 @@ class FakeSock(object):
     self.calls += 1
     if self.dead or self.closed:
       raise socket.error(errno.EPIPE, "Broken pipe")
+    if self.quota is not None:
+      # byte-budget mode (flush by the deferred sender): accept `quota` more bytes, then meet `terminal`.
+      # Independent of how the sender slices its data into send() calls.
+      if self.quota >= len(data) and not (self.quota == len(data) and self.terminal == "part" and False):
+        self.quota -= len(data)
+        self.accepted += data
+        return len(data)
+      if self.quota > 0:
+        n, self.quota = self.quota, 0
+        self.accepted += data[:n]
+        return n
+      if self.terminal == "fatal":
+        self.dead = True
+        raise socket.error(errno.ECONNRESET, "Connection reset by peer")
+      raise socket.error(errno.EAGAIN, "Resource temporarily unavailable")
     o = self.script.pop(0) if self.script else {"k": "full", "n": len(data)}
     if o["k"] == "full":
       self.accepted += data
@@ -247,17 +264,23 @@ class Adapter(object):
       ctl.run_until(self.D, ("dlock.acquire",))
     elif a == "DefFlush":
       outs = args["outs"] if isinstance(args["outs"], dict) else {}
+      pb = of_01.PIPE_BUF
+      for s_ in self.socks.values():
+        s_.script = []
       for n, o in outs.items():
         s = self.socks[n]
         k = o["k"]
-        if k in ("none",):
-          s.script = []
-        elif k == "all":
-          s.script = []
+        if k in ("none", "all"):
+          s.quota, s.terminal = None, None
         else:
-          s.script = [{"k": "full", "n": 99}] * (o["j"] - 1) + [{"k": k, "n": o["n"]}]
+          # the socket accepts q more bytes and then meets the outcome (a short write ends the flush like EAGAIN)
+          q = args["q"] if isinstance(args.get("q"), dict) else {}
+          s.quota = q.get(n, 0)
+          s.terminal = "eagain" if k == "part" else k
       self.dphase = "top"
       ctl.run_until(self.D, ("dlock.acquire",))
+      for s_ in self.socks.values():
+        s_.quota, s_.terminal = None, None
     elif a == "Close":
       self.cmds.append(("close", args["c"]))
       ctl.run_until(self.C, ("cmd.get",))
